@@ -216,6 +216,9 @@ class Lexer:
                                "for multiline strings instead.\n"
                                "This will become a hard error in a future Meson release.")
                         mlog.warning(mlog.code_line(msg, self.getline(line_start), col), location=BaseNode(lineno, col, filename))
+                        lines = value.split('\n')
+                        lineno += len(lines) - 1
+                        line_start = loc - len(lines[-1])
                     value = value[2 if tid == 'fstring' else 1:-1]
                 elif tid in {'multiline_string', 'multiline_fstring'}:
                     value = value[4 if tid == 'multiline_fstring' else 3:-3]
